@@ -113,6 +113,7 @@ type Obligation struct {
 	Blk     *ssa.BasicBlock
 	File    string
 	Candidate bool // model comes from the ground (quantifier-free) weakening
+	RecCallee string // for rec-progress obligations: contract key of the callee
 	Extra     []pendFact // instances of recorded hypotheses at the goal's skolem constants
 }
 
@@ -128,6 +129,7 @@ type Ctx struct {
 	fblks []*ssa.BasicBlock
 	curTag string
 	noVariant []string // non-range loops without a variant
+	recEdges  [][2]string
 	pend   []pendFact // hypothesis instances produced while building the current goal
 	curBlk *ssa.BasicBlock
 	reachCache map[[2]*ssa.BasicBlock]bool
